@@ -23,6 +23,7 @@ _CATEGORY = {
     "error": {"connect": "ConnectError", "start_tls": "ConnectError", "read": "ReadError", "write": "WriteError"},
     "timeout": {"connect": "ConnectTimeout", "start_tls": "ConnectTimeout", "read": "ReadTimeout", "write": "WriteTimeout"},
     "eof": {"read": "eof"},
+    "garbage": {"read": "garbage"},
 }
 
 
@@ -329,6 +330,13 @@ class World:
         if fault == "eof":
             del pipe.inbound[:]
             pipe.eof = True
+            fault = None
+        elif fault == "garbage":
+            # the peer sends bytes that are no valid HTTP/1.1, HTTP/2 or SOCKS message and then goes away: a protocol error
+            pipe.inbound[:] = b"\x00\x01\x02 this is not a protocol message \xff\xfe\r\n\r\n" * 2
+            pipe.in_flight[:] = b""
+            pipe.eof = True
+            op["garbage"] = True
             fault = None
         elif fault == "ReadError":
             pipe.broken = True
